@@ -104,7 +104,18 @@ func (cls *CachedLocations) expire(ctx *Context, sys *System, name string, relea
 	dead := false
 	if have {
 		cl.Lock()
-		cl.Pending = !released
+		// Count the requests that are using the location: the
+		// entry stays until the last one of them is done with it.
+		// (A single flag let the first request that finished
+		// unpin the location for all the others.)
+		if released {
+			if 0 < cl.pending {
+				cl.pending--
+			}
+		} else {
+			cl.pending++
+		}
+		cl.Pending = 0 < cl.pending
 		Log(INFO, ctx, "CachedLocations.expire", "name", name, "cached", "exists")
 		if cl.Pending || cl.Expires.After(time.Now()) {
 			Log(INFO, ctx, "CachedLocations.expire", "name", name, "cached", "live")
@@ -144,6 +155,9 @@ func (cls *CachedLocations) Open(ctx *Context, sys *System, name string, check b
 		Log(INFO, ctx, "CachedLocations.Open", "name", name, "expires", expires.String())
 		cl := &CachedLocation{
 			Expires: expires,
+			// (in use by this request)
+			Pending: true,
+			pending: 1,
 		}
 
 		// Lock the new entry before anybody else can find it.
@@ -218,6 +232,10 @@ type CachedLocation struct {
 	Expires time.Time
 	Pending bool
 	*Location
+
+	// pending counts the requests that are using the location.
+	// 'Pending' says whether there is any.
+	pending int
 }
 
 // OpenLocation wraps 'newLocation' to check for existence (optionally).
@@ -882,7 +900,12 @@ func legalFactWithout(ctx *Context, fact string, prop string) error {
 //
 // Just calls 'findLocation(,,false)'.
 func (sys *System) GetLocation(ctx *Context, name string) (*Location, error) {
-	return sys.findLocation(ctx, name, false)
+	loc, err := sys.findLocation(ctx, name, false)
+	// The caller (often a location looking for a parent) has no way
+	// to say when it is done, so the location is not kept in the
+	// cache on its behalf.
+	sys.releaseLocation(ctx, name)
+	return loc, err
 }
 
 // findLocation is the main function for getting a location.
